@@ -137,6 +137,16 @@ Proof.
       * now rewrite B3.
 Qed.
 
+(* A caller that keeps going after an error (harness family `cont`). The specification: once the
+   fault at write call k < w has been consumed the build may not be reported finished. Only the
+   specification is stated here; the state of the builder after an error is outside Writer.v (the
+   chunks emitted by later calls depend on the half-updated unfinished-node stack), so there is no
+   model-level theorem for it and the correspondence for that family compares S only. On the
+   current code the implementation does NOT meet this specification when the fault falls inside
+   an add/insert call: see known-findings.txt. *)
+Theorem C11_cont_spec : forall k w : nat, (k < w)%nat -> cont_spec_finished k w = false.
+Proof. intros k w H. unfold cont_spec_finished. apply Nat.ltb_lt in H. now rewrite H. Qed.
+
 (* non-vacuity: a fault at response 3 (inside the second call) and a failing flush *)
 Example C11_nonvacuous :
   let calls := [[[1; 2; 3]; [4]]; [[5; 6]]; [[7]]] in
@@ -168,4 +178,5 @@ Print Assumptions C11_fault_not_finished.
 Print Assumptions C11_flush.
 Print Assumptions C11_finished_means_complete.
 Print Assumptions C11_finished_means_complete_bufwriter.
+Print Assumptions C11_cont_spec.
 Print Assumptions C11_nonvacuous.
